@@ -231,8 +231,15 @@ def resolve_phis(path, idx, e):
     for ev in path.events[:idx]:
         if ev[0] == "set":
             last[ev[1]] = ev[2]
+    depth = [0]
     def fn(x):
         if x[0] == "phi" and len(x) > 2 and x[2] in last:
+            if depth[0] < 6:
+                depth[0] += 1
+                try:
+                    return rewrite(last[x[2]], fn)
+                finally:
+                    depth[0] -= 1
             return last[x[2]]
         return None
     return rewrite(e, fn)
